@@ -115,11 +115,13 @@ Definition rule_cands (method scheme host rawpath : string) : list (option strin
 Definition is_some {A} (o : option A) : bool := match o with Some _ => true | None => false end.
 Definition ok2xx (s : Z) : bool := (200 <=? s)%Z && (s <? 300)%Z.
 
-(** the matched rule fits the view that is shown (matching used what the mechanisms see) *)
+(** the matched rule fits the view that is shown (matching used what the mechanisms see); views for which
+    the harness's rule set gives no certain answer (a path without leading "/") fit anything *)
 Definition rule_fits (o : obs) : bool :=
   match o_view o with
-  | Some v => existsb (fun c => match c with Some r => String.eqb r (o_rule o) | None => false end)
-                      (rule_cands (ov_method v) (ov_scheme v) (ov_host v) (ov_rawpath v))
+  | Some v => let cands := rule_cands (ov_method v) (ov_scheme v) (ov_host v) (ov_rawpath v) in
+              negb (forallb is_some cands) ||
+              existsb (fun c => match c with Some r => String.eqb r (o_rule o) | None => false end) cands
   | None => true
   end.
 
